@@ -1,4 +1,5 @@
 import KmipModel.Client
+import KmipProofs.WireLemmas
 import KmipProofs.DecodeBasic
 import KmipProps.C06
 /-
@@ -227,3 +228,28 @@ theorem C14_send_transport_independent (sd : SD) (op : Nat) (src : Io.Src) (hi :
     | panic p' => rfl
 
 end Kmip.Client
+
+/-! ### end to end, at the level of message values (KmipModel/Wire.lean) -/
+namespace Kmip.Wire
+open Kmip
+
+/-- **Client.Send against the package's own Server.**  The Request `Send(op, payload)` builds, handed to handleBatch (no
+    credentials are sent, so the authentication gate is open), yields a Response of which `Send` returns exactly the outcome of
+    the handler that ran for the one item: its payload on success, its result reason and message on failure - for every
+    operation, payload, protocol version, clock and handler. -/
+theorem C14_e2e_send (zNonce zExt : Val) (clock : Nat) (authOk : Bool) (H : Nat → ItemIn → HRes) (ver : Nat × Nat) (op : Nat) (p : DynV) :
+    Client.send true true op ((handleBatch zNonce zExt clock authOk H (mkRequest zExt ver op p)).bind Client.respView) =
+      (match H 0 { op := op, uid := [], payload := p } with
+       | .success q => .payload q
+       | .failed r m => .failure r m) := by
+  unfold handleBatch
+  rw [reqView_mkRequest]
+  simp only [List.length_cons, List.length_nil, Nat.zero_add, ne_eq, not_true_eq_false, false_or, Nat.reduceLeDiff,
+    Bool.false_eq_true, ↓reduceIte, false_and, Option.bind_some]
+  rw [respView_respVal]
+  simp only [Client.send, viewsOf, Bool.not_true, Bool.false_eq_true, ↓reduceIte, ne_eq, not_true_eq_false]
+  cases H 0 { op := op, uid := [], payload := p } with
+  | success q => simp [viewOf, statusSuccess, Client.statusSuccess]
+  | failed r m => simp [viewOf, statusFailed, statusSuccess, Client.statusSuccess]
+
+end Kmip.Wire
